@@ -66,7 +66,8 @@ def value_node(val) -> Node:
     elif kind == "ipaddr":
         c = bytes(int(x) for x in payload.split("."))
     elif kind == "bool":
-        c = b"\xff" if payload else b"\x00"
+        # BER (X.690 8.2.2): any non-zero octet is TRUE; opts tv = the octet to use for TRUE
+        c = bytes([opts.get("tv", 0xFF)]) if payload else b"\x00"
     elif kind in ("null",) + EXCEPTION_KINDS:
         c = b""
     else:
